@@ -147,6 +147,7 @@ pub enum TState {
     Running,
     Parked,  // stopped at the entry of a relevant syscall, not resumed
     Granted, // resumed into the syscall, waiting for its exit stop
+    ExitHeld, // stopped at the entry of exit_group, held until the client's other threads are idle
     Exited,
 }
 
